@@ -473,11 +473,11 @@ func eofIsForeign() bool {
 //@   modifies r.err, r.remain, r.send100Continue, r.mu, r.st.lim, r.st.stream, r.st.stream.inbuf, r.st.stream.inbufoff, elems(p)
 //@   allocates
 
-// bodyReader.Close: needs a live QUIC stream (see the reported finding: after an over-read inside
-// trailers st.stream is nil and this call panics; Read does not re-establish this precondition).
+// bodyReader.Close never panics, also after an over-read inside a frame has dropped the QUIC stream
+// (st.stream == nil; finding F11: the original code dereferenced it).
 //
 //@ func (*bodyReader).Close(r) (err)
-//@   requires r != nil && r.st != nil && r.st.stream != nil
+//@   requires r != nil && r.st != nil
 //@   ensures  err == nil && r.remain == 0 && r.err != nil
 //@   modifies r.err, r.remain, r.mu, r.st.stream.inbuf, r.st.stream.inbufoff
 
